@@ -8,7 +8,7 @@
 //@ include: spec
 //@ include: common
 
-use crate::schema::self_referential::{__verif_schema_helper::mk_schema, SchemaNode};
+use crate::schema::self_referential::{__verif_schema_helper::{mk_schema_static, NODES_LONG}, SchemaNode};
 
 //@ harness: c18_check_header
 //@   props: C18
@@ -23,7 +23,7 @@ use crate::schema::self_referential::{__verif_schema_helper::mk_schema, SchemaNo
 fn c18_check_header() {
 	let fp: [u8; 8] = kani::any();
 	let h: [u8; 10] = kani::any();
-	let schema = mk_schema(vec![SchemaNode::Long], fp);
+	let schema = mk_schema_static(&NODES_LONG, fp);
 	let r = check_header(&h, &schema);
 	let mut fp_eq = true;
 	let mut i = 0;
@@ -55,7 +55,7 @@ fn c18_from_slice() {
 	let len: usize = kani::any();
 	kani::assume(len <= 21);
 	let input = &buf[..len];
-	let schema = mk_schema(vec![SchemaNode::Long], fp);
+	let schema = mk_schema_static(&NODES_LONG, fp);
 	let r: Result<i64, _> = from_single_object_slice(input, &schema);
 	if len < 10 {
 		kani::cover!(len == 9, "COV truncated header");
@@ -83,12 +83,42 @@ fn c18_from_slice() {
 	}
 }
 
-//@ harness: c18_from_reader
+//@ harness: c18_from_reader_hdr
 //@   props: C18, C11
 //@   tier: quick
 //@   kind: complete
 //@   fn: single_object_encoding::from_single_object_reader
-//@   domain: node `long`; every input of length 0..=13 delivered through every partition into refills
+//@   domain: node `long`; every input of length 0..=11 (header + one-byte datum) delivered through refills of every fixed size k in 1..=11
+//@   post: same outcome (value or Err) as from_single_object_slice on the same bytes
+#[kani::proof]
+#[kani::unwind(15)]
+#[kani::stub(alloc::fmt::format, stub_format)]
+fn c18_from_reader_hdr() {
+	let fp: [u8; 8] = kani::any();
+	let buf: [u8; 11] = kani::any();
+	let len: usize = kani::any();
+	kani::assume(len <= 11);
+	let input = &buf[..len];
+	let schema = mk_schema_static(&NODES_LONG, fp);
+	let a: Result<i64, _> = from_single_object_slice(input, &schema);
+	let k: usize = kani::any();
+	kani::assume(k >= 1 && k <= 11);
+	let b: Result<i64, _> = from_single_object_reader(Chunked::regular(input, k), &schema);
+	kani::cover!(a.is_ok(), "COV ok path");
+	kani::cover!(a.is_err() && len >= 10, "COV err path with full header");
+	match (a, b) {
+		(Ok(x), Ok(y)) => assert!(x == y, "OBL C18.from_reader.same_value_as_slice"),
+		(Err(_), Err(_)) => {}
+		_ => assert!(false, "OBL C18.from_reader.same_outcome_as_slice"),
+	}
+}
+
+//@ harness: c18_from_reader
+//@   props: C18, C11
+//@   tier: thorough
+//@   kind: complete
+//@   fn: single_object_encoding::from_single_object_reader
+//@   domain: node `long`; every input of length 0..=13 delivered through refills of every fixed size k in 1..=13
 //@   post: same outcome (value or Err) as from_single_object_slice on the same bytes
 #[kani::proof]
 #[kani::unwind(15)]
@@ -99,9 +129,11 @@ fn c18_from_reader() {
 	let len: usize = kani::any();
 	kani::assume(len <= 13);
 	let input = &buf[..len];
-	let schema = mk_schema(vec![SchemaNode::Long], fp);
+	let schema = mk_schema_static(&NODES_LONG, fp);
 	let a: Result<i64, _> = from_single_object_slice(input, &schema);
-	let b: Result<i64, _> = from_single_object_reader(Chunked::new(input), &schema);
+	let k: usize = kani::any();
+	kani::assume(k >= 1 && k <= 13);
+	let b: Result<i64, _> = from_single_object_reader(Chunked::regular(input, k), &schema);
 	kani::cover!(a.is_ok(), "COV ok path");
 	kani::cover!(a.is_err() && len >= 10, "COV err path with full header");
 	match (a, b) {
@@ -124,9 +156,9 @@ fn c18_from_reader() {
 fn c18_to_single_object() {
 	let fp: [u8; 8] = kani::any();
 	let v: i64 = kani::any();
-	let schema = mk_schema(vec![SchemaNode::Long], fp);
+	let schema = mk_schema_static(&NODES_LONG, fp);
 	let mut config = crate::ser::SerializerConfig::new(&schema);
-	let out = to_single_object(&v, ArrSink::<24>::new(), &mut config);
+	let out = to_single_object(&v, Vec::new(), &mut config);
 	let out = match out {
 		Ok(o) => o,
 		Err(_) => {
@@ -135,18 +167,10 @@ fn c18_to_single_object() {
 		}
 	};
 	let (e, n) = spec_enc_long(v);
-	assert!(!out.overflowed && out.len == 10 + n, "OBL C18.to_single_object.length");
-	assert!(out.buf[0] == 0xC3 && out.buf[1] == 0x01, "OBL C18.to_single_object.marker");
-	let mut i = 0;
-	while i < 8 {
-		assert!(out.buf[2 + i] == fp[i], "OBL C18.to_single_object.fingerprint_little_endian_bytes_of_schema");
-		i += 1;
-	}
-	let mut j = 0;
-	while j < n {
-		assert!(out.buf[10 + j] == e[j], "OBL C18.to_single_object.datum_follows_header");
-		j += 1;
-	}
+	assert!(out.len() == 10 + n, "OBL C18.to_single_object.length");
+	assert!(out[0] == 0xC3 && out[1] == 0x01, "OBL C18.to_single_object.marker");
+	assert!(out[2..10] == fp, "OBL C18.to_single_object.fingerprint_bytes_of_schema");
+	assert!(out[10..] == e[..n], "OBL C18.to_single_object.datum_follows_header");
 }
 
 //@ harness: c18_canary
@@ -159,6 +183,6 @@ fn c18_to_single_object() {
 fn c18_canary() {
 	let fp: [u8; 8] = kani::any();
 	let h: [u8; 10] = kani::any();
-	let schema = mk_schema(vec![SchemaNode::Long], fp);
+	let schema = mk_schema_static(&NODES_LONG, fp);
 	assert!(check_header(&h, &schema).is_err(), "OBL canary");
 }
